@@ -241,8 +241,9 @@ def run(ctx):
         concrete = [s for s in subs if s in kit and not kit[s]["abstract"] and kit[s]["structure"]]
         if len(concrete) != len(subs):
             continue                     # a candidate that cannot be instantiated: characterize is not meant for this base
-        for _ in range(6 if ctx.quick else 40):
-            pick = rng.choice(concrete + [None])
+        # an instance of EVERY candidate type (also those that override structure() and share a signature
+        # with a sibling), then random picks and junk
+        for pick in list(concrete) + [rng.choice(concrete + [None]) for _ in range(3 if ctx.quick else 40)]:
             if pick is None:
                 seq = gens.rand_dna(rng, rng.randrange(20, 60))
             else:
